@@ -527,5 +527,5 @@ def b_native(B):
 
 
 from pyvc.api import depends  # noqa: E402
-depends(PROPERTY, "C08", ["adc_tables"])      # "recorded with each channel's ADC sampling delay": the delay table destripe re-aligns with (trace_header -> adc_shifts), every channel of every generation
+depends(PROPERTY, "C08", ["adc_tables", "split_restriction"])      # "recorded with each channel's ADC sampling delay": the delay table destripe re-aligns with (trace_header -> adc_shifts), every channel of every generation; the header of one shank of a multi-shank probe (split_trace_header) carries each channel's own delay
 depends(PROPERTY, "C15", ["interpolate_iteration"])      # destripe repairs dead / noisy channels before the spatial filter: only good or outside-brain channels are sources (a dead neighbour would carry no common signal)
